@@ -164,6 +164,20 @@ Stage(st, mem, rec, line, L) ==
                             f[2].k = "str" /\ f[1] # S_entry /\ ~(f[1] # <<>> /\ ~IsDigit(f[1][1]) /\ f[1][1] # 46 /\ \A j \in DOMAIN f[1] : IsNameByte(f[1][j]) \/ f[1][j] = 46)
               IN R0(TRUE, r.line, r.L, mem, odd)
     [] st.t = "pattern" -> R0(TRUE, line, SetAll(L, PatMatch(st.parts, line)), mem, FALSE)
+    \* regexp: the named groups of the leftmost-first match become labels (overriding); no match: nothing happens.
+    \* A group that took no part in the match is set to the empty string by the code: left optional (and, over an existing
+    \* label, open) - the property speaks of fields that are present
+    [] st.t = "regexp" ->
+         LET m == FirstMatch(st.re, line)
+             names == CapNames(st.re)
+             part(n) == \E t \in m.c : t[1] = n
+             val(n) == LET t == CHOOSE t \in m.c : t[1] = n IN SubSeq(line, t[2], t[3] - 1)
+             RECURSIVE Apply(_, _)
+             Apply(k, LL) == IF k > Len(names) THEN LL ELSE Apply(k + 1, Set(LL, names[k], IF part(names[k]) THEN val(names[k]) ELSE <<>>))
+             idle == {names[k] : k \in {k \in DOMAIN names : ~part(names[k])}}
+         IN IF ~m.found THEN R0(TRUE, line, L, mem, FALSE)
+            ELSE [keep |-> TRUE, line |-> line, L |-> Apply(1, L), mem |-> mem, open |-> FALSE, lopen |-> FALSE,
+                  vopen |-> {n \in idle : Has(L, n)}, opt |-> idle]
     [] st.t = "distinct" ->
          IF ~Has(L, st.label) THEN R0(TRUE, line, L, mem, FALSE)
          ELSE LET v == Get(L, st.label) IN R0(v \notin mem, line, L, mem \cup {v}, FALSE)
@@ -179,6 +193,9 @@ StageWellFormed(st) ==
     [] st.t = "label" -> PredWellFormed(st.pred)
     [] st.t \in {"drop", "keep"} -> LET ms == Fld(st, "matchers", <<>>) IN \A k \in DOMAIN ms : ms[k].op \in {"re", "nre"} => ms[k].val = ReText(ms[k].re)
     [] st.t = "labelfmt" -> \A k \in DOMAIN st.renames : st.renames[k].dst # st.renames[k].src
+    \* the stage's text is its expression's rendering; group names are distinct; repetition bodies consume something
+    [] st.t = "regexp" -> /\ st.val = ReText(st.re) /\ NonNullableReps(st.re) /\ CapNames(st.re) # <<>>
+                          /\ \A i, j \in DOMAIN CapNames(st.re) : i # j => CapNames(st.re)[i] # CapNames(st.re)[j]
     [] OTHER -> TRUE
 
 \* the text "| drop a != x" denotes a drop with a value matcher: a case must not mean "drop a" followed by a line filter
